@@ -162,8 +162,47 @@ def judge(case, col):
                       case.key(), size=(len(case.tape) if case.tape else 100000 + len(text or '')))
 
 
+FLAGS = {'usv_off': '--disable-use-site-variance', 'contra_off': '--disable-contravariance-use-site',
+         'bounded_off': '--disable-bounded-type-parameters', 'pfunc_off': '--disable-parameterized-functions'}
+
+
+def args_leg(spec, col):
+    """The command line is the only way a user sets the switches: for this shard's switch combination (all 16 are
+    covered by the 16 shards, in two orders of the flags) a fresh interpreter parses the flags through src/args.py and the
+    resulting configuration must be the one the generation legs apply (boot.apply_config)."""
+    import json
+    import subprocess
+    import sys
+    combo = boot.switch_sets()[spec['k'] % 16]
+    code = ('import sys, json\n'
+            'sys.path.insert(0, %r)\n'
+            'from src.args import args\n'
+            'from src.generators.config import cfg\n'
+            'print("CFG=" + json.dumps({"usv_off": bool(cfg.dis.use_site_variance), "contra_off": bool(cfg.dis.use_site_contravariance),'
+            ' "bounded_off": cfg.prob.bounded_type_parameters == 0, "pfunc_off": cfg.prob.parameterized_functions == 0}))\n') % boot.repo()
+    for order in (list(combo), list(reversed(combo))):
+        argv = ['hephaestus.py', '--language', spec['lang'], '-i', '1', '--bugs', '/tmp/verif_c17_args', '--name', 'x'] + \
+               [FLAGS[s] for s in order]
+        r = subprocess.run([sys.executable, '-c', 'import sys; sys.argv = %r\n%s' % (argv, code)], stdout=subprocess.PIPE,
+                           stderr=subprocess.PIPE, text=True, timeout=300)
+        line = [l for l in r.stdout.splitlines() if l.startswith('CFG=')]
+        if not line:
+            raise RuntimeError('args leg: no configuration printed: ' + r.stderr[-400:])
+        got = json.loads(line[0][4:])
+        want = {s: (s in combo) for s in boot.SWITCHES}
+        col.case(key='args|%s|%s' % (spec['lang'], ','.join(order)), nontrivial=bool(combo),
+                 sample=lambda: {'leg': 'command line', 'flags': [FLAGS[s] for s in order], 'configuration': got})
+        col.feature('command_lines_parsed')
+        for s in boot.SWITCHES:
+            if got[s] != want[s]:
+                col.violation('C17/command-line/%s-%s' % (s, 'ignored' if want[s] else 'set-without-flag'),
+                              {'flags': [FLAGS[x] for x in order], 'configuration': got, 'lang': spec['lang']},
+                              {'args_leg': True, 'k': spec['k'], 'lang': spec['lang']}, size=len(order))
+
+
 def run_shard(spec, col):
     lang = spec['lang']
+    args_leg(spec, col)
     boot.init(lang)
     quick = col.tier == 'quick'
     combos = boot.switch_sets()
@@ -186,5 +225,8 @@ def run_shard(spec, col):
 
 
 def replay(key, col):
+    if key.get('args_leg'):
+        args_leg({'k': key['k'], 'lang': key['lang']}, col)
+        return
     boot.init(key['lang'])
     judge(pg.regen(key), col)
